@@ -9,6 +9,11 @@
 //!        publisher created at clock t0, publishing b_k at clock reading now_k: per publish
 //!        `<t>/<l>:<body>:<yielded back 0|1>`, then `uniq=<0|1>` (published byte strings
 //!        pairwise distinct)
+//!   `remix <signer> <t0> <now> <b> <field>`
+//!        a message really published by the publisher (created at clock t0, publishing at clock
+//!        now), decoded, one field changed (`n` none, `v` version+1, `k` author -> next scenario
+//!        key, `t` time+1, `l` logical+1, `b` body + "x"), re-encoded with the original
+//!        signature and handed to a subscription -> what it yields
 //! Yields are printed as `Y<key index>:<timestamp>:<body number>`; nothing yielded = `-`.
 use std::pin::Pin;
 use std::task::{Context, Poll};
@@ -145,6 +150,30 @@ pub fn case(env: &Env, payload: &str) -> String {
                 }
             }
             format!("{} uniq={}", out.join(" "), if uniq { 1 } else { 0 })
+        }
+        "remix" => {
+            let signer = num(1);
+            MockClock::set_system_time(Duration::from_micros(num(2)));
+            let mut s = open(env, signer, 16);
+            let publisher = s.publisher.take().unwrap();
+            MockClock::set_system_time(Duration::from_micros(num(3)));
+            env.rt.block_on(publisher.publish(unhex(toks[4]))).expect("publish");
+            let bytes = s.published.try_recv().expect("publish handed bytes to the overlay");
+            let (mut ver, mut pk, sig, t, l, mut b): (u64, VerifyingKey, Signature, Timestamp, LamportTimestamp, String) =
+                decode_cbor(&bytes[..]).expect("published bytes decode");
+            let (mut t, mut l) = (u64::from(t), l.to_string().parse::<u64>().unwrap());
+            match toks[5] {
+                "n" => {}
+                "v" => ver = ver.wrapping_add(1),
+                "k" => pk = crate::common::key((signer + 1) % 6).verifying_key(),
+                "t" => t = t.wrapping_add(1),
+                "l" => l = l.wrapping_add(1),
+                "b" => b.push('x'),
+                _ => return "BADCASE".into(),
+            }
+            let remixed = p2panda_core::cbor::encode_cbor(&(ver, pk, sig, Timestamp::new(t), LamportTimestamp::new(l), &b)).unwrap();
+            let _ = s.inject.as_ref().unwrap().send(remixed);
+            show(drain(&mut s.subscription))
         }
         _ => "BADCASE".to_string(),
     }
